@@ -1081,6 +1081,9 @@ def work(task, res: Result):
         work_bell(task, res)
 
 
+BIG_POOL_GAMES = ((10, 10), (10, 11))   # the enumerated player has 2^10 > 1000 strategies: multiprocessing branch of NonlocalGame.classical_value (oracle: one-sided enumeration, theorem xor_classical_one_sided)
+
+
 def run(ctx, model_ok=True):
     rng = ctx.rng
     quick = ctx.tier == "quick"
@@ -1106,6 +1109,21 @@ def run(ctx, model_ok=True):
     for t in tasks:
         t["pres"] = int(prs.integers(1, 2 ** 31))
     run_pool(ctx, work, tasks)
+    # games with >= 10 questions on both sides: the enumerated player has 2^10 > 1000 strategies, so NonlocalGame.classical_value goes through its
+    # multiprocessing branch.  They run in this (non-daemonic) process, one after the other: pool workers cannot start a pool of their own.
+    import harness.pool as _pool
+    brng = np.random.default_rng(20240929)
+    for (bm, bn) in BIG_POOL_GAMES:
+        w = np.ones(bm * bn, dtype=int)
+        w[brng.choice(bm * bn, size=128 - bm * bn, replace=False)] += 1      # entries 1/128 or 2/128, summing to 1
+        big = _game(f"pool-{bm}x{bn}", (w / 128.0).reshape(bm, bn), brng.integers(0, 2, size=(bm, bn)), calls=("c", "conv"))
+        big["pres"] = int(prs.integers(1, 2 ** 31))
+        bres = Result()
+        work(big, bres)
+        fold(ctx, bres)
+    if _pool._driver is not None:
+        _pool._driver.close()
+        _pool._driver = None
     ctx.extra["tolerances"] = {"scs": TAU, "classical": "exact (1e-12 for non-dyadic distributions)", "bell": "1e-3 * coefficient scale"}
     ctx.extra["certified_interval_width_bound"] = WIDTH_OK
     ctx.extra["grothendieck_constant_used"] = K_G
@@ -1117,6 +1135,8 @@ def replay(ctx, rec):
     if task.get("kind") == "game" and "calls" not in task:
         mm, nn, rr = task.get("m", 9), task.get("n", 9), task.get("reps", 1)
         task["calls"] = ["q", "c", "conv", "npa", "ns"] + (["c2"] if mm <= 2 and nn <= 2 else [])
+        if min(mm, nn) >= 10:
+            task["calls"] = ["c", "conv"]      # the games of BIG_POOL_GAMES (multiprocessing branch of classical_value)
         if rr >= 2 and (2 ** rr) ** (min(mm, nn) ** rr) <= 256 and max(mm, nn) ** rr <= 27:
             task["calls"].append("cr")
     res = Result()
